@@ -315,6 +315,8 @@ fn workload_inner(rng: &mut Rng, tier: Tier, volume: bool) -> Workload {
         layout_variants: false,
     };
     let expr = gen::expression(rng, &cfg);
+    // syntax only a changed tree knows may or may not parse the way it is tried: set aside, not drift
+    probe |= gen::uses_new_words(&expr);
     // one workload in 12 is wide: more scanner threads and files than any fixed-size pool of
     // per-thread slots (4, 8, 16) a generated program might keep
     let wide = !volume && rng.chance(1, 12);
@@ -1830,6 +1832,16 @@ pub fn selftests() -> Vec<(&'static str, bool, String)> {
                 None,
                 Some(&["records-lost-or-altered", "mixed-line", "torn-line", "stray-output"]),
             );
+            let setvbuf_unlocked = "(p (current-output-port)) (m (make-mutex)) (pr (lambda (l) (with-mutex m (display l p) (display #\\x0a p)) (setvbuf (current-output-port) 'none)))";
+            case_b(
+                &mut buffered,
+                "buffered ports, setvbuf on the shared port outside the lock: output stored into the replaced buffer is lost",
+                wrap_program(setvbuf_unlocked, "(call-with-relative-path pr)"),
+                None,
+                Some(&["records-lost-or-altered", "mixed-line", "torn-line", "stray-output"]),
+            );
+            let setvbuf_locked = "(p (current-output-port)) (m (make-mutex)) (pr (lambda (l) (with-mutex m (display l p) (display #\\x0a p) (setvbuf (current-output-port) 'none))))";
+            case_b(&mut buffered, "buffered ports, setvbuf inside the lock: never torn, nothing lost", wrap_program(setvbuf_locked, "(call-with-relative-path pr)"), None, None);
         }
     }
     let explicit = "(p (current-output-port)) (m (make-mutex)) (pr (lambda (l) (lock-mutex m) (display l p) (display #\\x0a p) (unlock-mutex m)))";
